@@ -23,11 +23,14 @@ from .prng import Rng  # noqa: E402
 
 LEVEL = {"C10": "fault_enumeration", "C11": "exploration", "C14": "exploration"}
 
+# Sizes follow the measured throughput of this sandbox: a run is one fork of a ~180 MB primed interpreter and
+# fork/exit/page-fault work does not scale across cores here (measured: 120 histories take 38 s with 1, 2, 3, 4
+# or 6 workers while CPU use grows linearly), so the batch sizes, not the worker count, set the wall time.
 TIERS = {
-    "quick": {"hash_seeds": 8, "C10": {"random": 700, "sweep_n": (0,), "typing_all": False},
-              "C11": {"runs": 640}, "C14": {"runs": 640}, "budget_s": 420},
-    "thorough": {"hash_seeds": 64, "C10": {"random": 12000, "sweep_n": (0, 1), "typing_all": True},
-                 "C11": {"runs": 24000}, "C14": {"runs": 24000}, "budget_s": 3000},
+    "quick": {"hash_seeds": 4, "C10": {"random": 120, "sweep_n": (0,), "typing_all": False},
+              "C11": {"runs": 140}, "C14": {"runs": 260}, "budget_s": 300},
+    "thorough": {"hash_seeds": 32, "C10": {"random": 4000, "sweep_n": (0, 1), "typing_all": True},
+                 "C11": {"runs": 6000}, "C14": {"runs": 10000}, "budget_s": 3000},
 }
 
 
